@@ -22,7 +22,8 @@ subprocess.run(["git", "-C", wt, "stash", "pop", "-q"])
 assert subprocess.run(["git", "-C", "/repo", "status", "--porcelain", "--untracked-files=no"], capture_output=True, text=True).stdout == "", "/repo not clean"
 subprocess.run(["git", "-C", "/repo", "apply", f"{out}/patch.diff"], check=True)
 try:
-    rc_check, out_check = run(["python3-vt", "-m", "pyvc.check", prop], cwd="/verif")
+    rc_check, out_check = run(["python3-vt", "-m", "pyvc.check", prop], cwd="/verif",
+                              env={**os.environ, "VERIF_EVIDENCE_DIR": "/tmp/pgverif-seed-evidence"})
 finally:
     subprocess.run(["git", "-C", "/repo", "checkout", "--", "."], check=True)
 lines = [l for l in out_check.split("\n") if l.startswith(("VIOLATION", "UNDECIDED", "  failed obligation", prop + ":"))]
